@@ -531,4 +531,24 @@ theorem complete_is_solution (b : Rat) (dense : Bool) (s : State) (as : List Nat
   have hn := complete_no_legal id dense s as (feasible_wellShaped b s hf) hep
   exact ⟨hfe, feasible_withinBudget b _ hfe, maximal_of_no_legal b _ hfe hn, hn⟩
 
+/-! ### audit r4 #2: the float32 budget along a whole play -/
+
+theorem remaining_nonneg_along (rnd : Rat → Rat) (hmono : ∀ x y, x ≤ y → rnd x ≤ rnd y) (h0 : rnd 0 = 0)
+    (dense : Bool) : ∀ (as : List Nat) (s : State), 0 ≤ s.remaining → LegalPlay rnd dense s as →
+    ∀ s' ∈ statesAlong rnd dense s as, 0 ≤ s'.remaining := by
+  intro as
+  induction as with
+  | nil => intro s hr _ s' hs'; simp [statesAlong] at hs'; subst hs'; exact hr
+  | cons a as ih =>
+    intro s hr hp s' hs'
+    obtain ⟨hl, hrest⟩ := hp
+    have hn := remaining_nonneg rnd hmono h0 dense s a hr hl
+    simp only [statesAlong, List.mem_cons] at hs'
+    rcases hs' with rfl | hs'
+    · exact hr
+    · by_cases hlast : (step rnd dense s a).2.stepType = .last
+      · simp [hlast] at hs'; subst hs'; exact hn
+      · simp only [hlast, if_false] at hs' hrest
+        exact ih _ hn hrest s' hs'
+
 end Knapsack
